@@ -58,6 +58,9 @@ def judge_pubkey(ctx, case):
             bad.append(("parse.raised|comp=%s" % comp, want, e))
     if pk.K.sec() != secp.ser(pt, True):
         bad.append(("sec_default_compressed", secp.ser(pt, True), pk.K.sec()))
+    for comp in ((False, True, True, False) if k & 1 else (True, False, False, True)):
+        if pk.K.sec(compressed=comp) != secp.ser(pt, comp):
+            bad.append(("sec_repeat|comp=%s" % comp, secp.ser(pt, comp), pk.K.sec(compressed=comp)))
     return ctx.judge("pubkey", not bad, case, {"K": secp.ser(pt, True)}, bad, cls="%s|%s" % (case["ktag"], case["how"]),
                      mech="C09.pubkey." + (bad[0][0].split("|")[0] if bad else ""))
 
